@@ -1,7 +1,7 @@
 import Prism.Proofs.C16
-open Prism.Icc
-#print axioms C16_header_fields
-#print axioms C16_attributes_is_be64
-#print axioms C16_flag_bits
-#print axioms C16_version_string
-#print axioms C16_bad_signature_rejected
+
+#print axioms Prism.Icc.C16_header_fields
+#print axioms Prism.Icc.C16_attributes_is_be64
+#print axioms Prism.Icc.C16_flag_bits
+#print axioms Prism.Icc.C16_version_string
+#print axioms Prism.Icc.C16_bad_signature_rejected
